@@ -14,8 +14,20 @@ Oracle (this file): whenever the spec side is well defined (`wf`: every text ins
   setmap must be the count of those lines per set, `Total SLOC` the number of counted lines, and the coverage export the
   used/unused split of the spec's attribution for that platform.
 
+No `#include`, no `-include`, no symbolic links here: cross-file attribution is judged by the `inc` stream (c06_inc.py)
+and by C04, links are covered by the analysis-result-level streams of c06.py.  A file may be written with CRLF or lone-CR
+line endings (`eol`): model and spec take the universal-newline image `text`, the content hash is that of the bytes.
 No `#include`, no `-include`, no symbolic links here: cross-file attribution is C04's layer, links are covered by the
 analysis-result-level streams of c06.py.
+
+Languages: the code base holds C-family files (C01 programs decorated with C05 material) AND free-form Fortran files
+(`.f90/.F90`: programs of the C17 generator `c17.g_program` — continued statements, character literals, comment / sentinel /
+blank lines, nested conditionals, `#define/#undef`), rarely a fixed-form `.f` file (a source file of the code base for which
+`get_file_source` raises).  The model picks the front end by the extension as the code does (`C06L.parseSrcL`: C05 model
+for the C family, C17 model `Fortran.fortranSource` / `group` / `pnodeOf` for Fortran); the spec side of a Fortran file is
+C17's reference scanner (`Fortran.refText`: counted lines; `Fortran.refNodes`: their grouping) under C17's guard (inside WF,
+no F-C17-1 line) and the same C01 reference machine per `-D` list.  For a Fortran file the grouping of the counted lines
+into nodes is compared here (not proved): `Props/C06Fortran.lean`, `FortranGroupsAreReference`.
 """
 from __future__ import annotations
 
@@ -28,6 +40,7 @@ import time
 
 from harness import core
 from harness.props import c01 as C01
+from harness.props import c17 as C17
 
 PLATS = ["arm", "cpu", "fpga", "gpu"]          # sorted: a sub-list is the canonical form of a frozenset
 DIRS = ["", "src", "src/util", "include", "lib/deep/er"]
@@ -71,18 +84,40 @@ def gen_text(rng):
     return text, names
 
 
+F_PLAIN = ["x = 1\n! c\ny = 2\n", "! nothing\n", "", "\n\n", "call last()", "!$omp parallel\n\n!$omp end parallel\n",
+           "s = 'it''s &\n   &fine' ! c\n"]
+
+
+def gen_ftext(rng):
+    """a free-form Fortran program of the C17 generator: statements continued over lines (also inside character literals), comment /
+    sentinel / blank lines, nested #if/#elif/#else/#endif, #define/#undef; with `split` a continued statement is cut by directives
+    (outside the WF of the C17 reference: model comparison only)"""
+    text = C17.g_program(rng, depth=rng.randint(1, 3), size=rng.randint(3, 14), split=rng.choice([0.0, 0.0, 0.0, 0.0, 0.0, 0.15]))
+    if rng.random() < 0.04:
+        text = C17.mutate_text(rng, text)
+    return text, list(C17.NAMES)
+
+
 def gen_case(rng):
     nfiles = rng.choice([1, 1, 2, 2, 3, 4])
     files, names_all = [], set()
+    # a third of the code bases is C only (the stream as it was), the others mix the two front ends
+    p_fortran = rng.choice([0.0, 0.5, 0.5, 1.0])
     for i in range(nfiles):
         kind = rng.random()
-        if kind < 0.12:
-            text, names = rng.choice(["int unused;\n// x\nint unused2;\n", "/* nothing */\n", "", "\n\n", "int last"]), []
+        if rng.random() < p_fortran:
+            # `.f` is fixed-form Fortran: a source file of the code base for which `get_file_source` raises RuntimeError
+            ext = "f" if rng.random() < 0.03 else rng.choice(["f90", "F90"])
+            text, names = (rng.choice(F_PLAIN), []) if kind < 0.12 else gen_ftext(rng)
         else:
-            text, names = gen_text(rng)
+            ext = rng.choice(['c', 'h', 'cpp', 'hpp', 'cc'])
+            if kind < 0.12:
+                text, names = rng.choice(["int unused;\n// x\nint unused2;\n", "/* nothing */\n", "", "\n\n", "int last"]), []
+            else:
+                text, names = gen_text(rng)
         names_all.update(names)
         d = rng.choice(DIRS)
-        files.append({"path": [x for x in d.split("/") if x] + [f"f{i}.{rng.choice(['c', 'h', 'cpp', 'hpp', 'cc'])}"], "text": text})
+        files.append({"path": [x for x in d.split("/") if x] + [f"f{i}.{ext}"], "text": text})
     names = sorted(names_all) or ["A"]
     plats = []
     for name in PLATS[: rng.choice([0, 1, 1, 2, 2, 3, 4])]:
@@ -96,7 +131,19 @@ def gen_case(rng):
         rng.shuffle(entries)
         plats.append({"name": name, "entries": entries})
     cov = rng.choice(plats)["name"] if plats else None
+    # line endings on disk (drawn last, so the texts / platforms of a seed are the ones drawn before this was added): the
+    # model and the spec take `text` = the universal-newline image, the implementation reads the bytes written
+    for f in files:
+        r = rng.random()
+        if r < 0.3:
+            f["eol"] = "crlf" if r < 0.2 else "cr"
     return {"kind": "txt", "files": files, "plats": plats, "cov": cov}
+
+
+def disk_bytes(f):
+    """the bytes written for a file of the case: its text with the chosen line ending"""
+    eol = {"lf": "\n", "crlf": "\r\n", "cr": "\r"}[f.get("eol", "lf")]
+    return f["text"].replace("\n", eol).encode()
 
 
 # --------------------------------------------------------------------------
@@ -114,8 +161,8 @@ def run_impl(root, case):
     for f in case["files"]:
         full = os.path.join(root, *f["path"])
         os.makedirs(os.path.dirname(full), exist_ok=True)
-        with open(full, "w", newline="") as fh:
-            fh.write(f["text"])
+        with open(full, "wb") as fh:
+            fh.write(disk_bytes(f))
     cfg = {p["name"]: [{"file": os.path.join(root, *e["file"]), "defines": list(e["defs"]), "include_paths": [], "include_files": []}
                        for e in p["entries"]] for p in case["plats"]}
     try:
@@ -201,6 +248,11 @@ def compare(case, impl, cov, rep, rep1, root=None):
                 want_cnt.update(want.values())
                 if dup:
                     spec_p.append(f"{'/'.join(p)}: a line belongs to two nodes")
+                groups = [lines for _, _, lines in impl["files"].get(p, [])]
+                if sorted(got) == sf["counted"] and groups != [ls for _, ls in sf["nodes"]]:
+                    # proved for the model of a C-family file (C05.nodes_of_ok); for a Fortran file this comparison is the evidence
+                    spec_p.append(f"{'/'.join(p)}: the nodes hold the lines {groups} but the specification of {sf.get('lang', 'c')} groups "
+                                  f"the counted lines as {[ls for _, ls in sf['nodes']]}")
                 if sorted(got) != sf["counted"]:
                     spec_p.append(f"{'/'.join(p)}: lines of the nodes {sorted(got)} but the counted lines of the text are {sf['counted']}")
                 elif got != want:
@@ -249,7 +301,7 @@ def compare(case, impl, cov, rep, rep1, root=None):
                         spec_p.append(f"coverage of {name}: used {u} unused {un}; the platform's preprocessor keeps {wu} and skips {wun} of the counted lines {sf['counted']}")
                     if len(set(u) | set(un)) != len(u) + len(un):
                         spec_p.append(f"coverage of {name} lists a line twice")
-                    if h != hashlib.sha512(f["text"].encode()).hexdigest():
+                    if h != hashlib.sha512(disk_bytes(f)).hexdigest():
                         spec_p.append(f"content hash of {name} is not the SHA-512 of its bytes")
     return spec_p, model_p
 
@@ -338,7 +390,15 @@ def run_one(ctx, drv, case, origin):
         ctx.dist["txt:spec defined" if rep["spec"]["wf"] else "txt:outside the guards (model comparison only)"] += 1
         if "exc" in rep["model"]:
             ctx.dist["txt:analysis raises"] += 1
+        langs = sorted(set(sf.get("lang", "c") for sf in rep["spec"]["files"]))
+        ctx.dist["txt:languages=" + "+".join(langs)] += 1
+        for sf in rep["spec"]["files"]:
+            if sf.get("lang") == "fortran-free":
+                ctx.dist["txt:fortran file inside the C17 guard" if sf["guard"] else "txt:fortran file outside the C17 guard"] += 1
     ctx.dist["txt:coverage computed" if cov is not None else "txt:no platform for coverage"] += 1
+    for f in case["files"]:
+        if f.get("eol"):
+            ctx.dist["txt:file written with eol=" + f["eol"]] += 1
     if rep is not None and rep["spec"]["wf"] and nplat >= 2:
         ctx.sample({"kind": "txt", "files": [dict(f, text=f["text"][:300]) for f in case["files"][:2]], "plats": case["plats"][:2],
                     "setmap": rep["model"].get("ok", {}).get("setmap")}, cap=8)
